@@ -11,7 +11,7 @@ Names are positional (parameters a0.., locals v1.., temporaries t1..): renaming 
 import re, os, hashlib
 
 USIZE_MAX = 18446744073709551615
-NAT_TYPES = ("usize", "u64", "u32")
+NAT_TYPES = ("usize", "u64")      # 64-bit words only: the checked operations test against 2^64 (u32 arithmetic would need its own bound: refused)
 
 PRELUDE = """/-- what the body of a loop tells the loop: go on with the next iteration (fall through, `continue`) or leave (`break`) -/
 inductive Ctl (σ : Type) where
@@ -83,6 +83,7 @@ def canon(e):
     if k == "vecrep": return "vec![" + canon(e[1]) + "; " + canon(e[2]) + "]"
     if k == "vec": return "vec![" + ", ".join(canon(a) for a in e[1]) + "]"
     if k == "tuple": return "(" + ", ".join(canon(a) for a in e[1]) + ")"
+    if k == "unsafeexpr" and not e[1][0] and e[1][1] is not None: return "unsafe {" + canon(e[1][1]) + "}"
     return "<" + k + ">"
 
 
@@ -812,7 +813,7 @@ class Gen:
 
     def load_const(self, name, rel):
         src = self.src(rel)
-        ms = re.findall(r"\bconst\s+%s\s*:\s*(?:usize|u64|u32)\s*=\s*([0-9][0-9_]*)\s*;" % re.escape(name), src)
+        ms = re.findall(r"\bconst\s+%s\s*:\s*(?:usize|u64)\s*=\s*([0-9][0-9_]*)\s*;" % re.escape(name), src)
         if len(ms) != 1: raise self.T.Unsupported(f"const {name} found {len(ms)} times in {rel}")
         self.consts[name] = int(ms[0].replace("_", ""))
 
